@@ -216,6 +216,9 @@ enum Unit {
         impl_file: String,
         self_ty: String,
         name: String,
+        /// return type text to use instead of the source text (associated types written out)
+        #[serde(default)]
+        ret_ty: String,
         #[serde(default)]
         ret: String,
         #[serde(default)]
@@ -1945,6 +1948,10 @@ fn extract_fn(
                             ty_done = true;
                         }
                     }
+                    if !ty_done && spec.subst.iter().any(|sb| rw.text(pt.span()).contains(sb.find.as_str())) {
+                        // a logged R12 signature substitution of the plan rewrites this parameter (monomorphisation)
+                        ty_done = true;
+                    }
                     if !ty_done {
                         rw.errors.push(format!(
                             "unsupported `impl Trait` parameter `{}`",
@@ -3632,6 +3639,7 @@ fn main() {
                 impl_file,
                 self_ty,
                 name,
+                ret_ty,
                 ret,
                 ensures,
                 mode,
@@ -3734,6 +3742,7 @@ fn main() {
                     clauses.push_str(&format!("\n    ensures\n        {},\n", ensures.join(",\n        ")));
                 }
                 let rname = if ret.is_empty() { "r".to_string() } else { ret.clone() };
+                let sig_out = if ret_ty.is_empty() { sig_out } else { ret_ty.clone() };
                 let text = if mode == "assumed" {
                     log.assumed.push(name.clone());
                     format!("#[verifier::external_body]\npub fn {}(this: &{}) -> ({}: {}){}{{ unimplemented!() }}\n", name, self_ty, rname, sig_out, clauses)
